@@ -295,6 +295,18 @@ def builders(model):
         I, 'Gradient', D(), range=wps(D()))
     B['Divergence[weighted product-space domain]'] = lambda I, S: inst(
         I, 'Divergence', domain=wps(D()), range=D())
+    # compositions whose left factor is not safe for aliased evaluation
+    B['expr:PartialDerivative(axis 0) o PartialDerivative(axis 1)'] = (
+        lambda I, S: I.binop(ast.Mult, inst(I, 'PartialDerivative', D(), 0),
+                             inst(I, 'PartialDerivative', D(), 1)))
+    B['expr:Laplacian o ScalingOperator'] = (
+        lambda I, S: I.binop(ast.Mult, inst(I, 'Laplacian', D()),
+                             inst(I, 'ScalingOperator', D(), Rat.var('s'))))
+    B['expr:PartialDerivative o Laplacian + PartialDerivative'] = (
+        lambda I, S: I.binop(ast.Add, I.binop(
+            ast.Mult, inst(I, 'PartialDerivative', D(), 0),
+            inst(I, 'Laplacian', D())), inst(I, 'PartialDerivative', D(),
+                                             1)))
     # arithmetic on top of concrete leaves (dunders of Operator)
     B['expr:(s*RealPart + ImagPart)[C]'] = (
         lambda I, S: I.binop(ast.Add, I.binop(ast.Mult, Rat.var('s'), inst(
